@@ -77,7 +77,7 @@ cdef class ServiceInfo(RecordUpdateListener):
     cdef public cython.list _dns_address_cache
     cdef public cython.set _get_address_and_nsec_records_cache
 
-    @cython.locals(record_update=RecordUpdate, update=bint, cache=DNSCache)
+    @cython.locals(record_update=RecordUpdate, update=bint, cache=DNSCache, address_updates=cython.list)
     cpdef void async_update_records(self, object zc, double now, cython.list records)
 
     @cython.locals(cache=DNSCache)
